@@ -107,7 +107,9 @@ def job_build(ses, proto):
 
 
 def run(ses):
+    from . import c13
     jobs = [(job_set_claim, ()), (job_ack, ())] + [(job_build, (p,)) for p in PROTOCOLS]
+    jobs += [(c13.job_histories, (2 if ses.tier == 'quick' else 3, ('c17',), i, 8)) for i in range(8)]
     run_jobs(ses, jobs)
     ses.trusted_base = TRUSTED
     ses.assumptions = ['the state before each step is ANY state satisfying the invariant (covers call sequences of every length and interleaving, including repeated builds)',
